@@ -32,6 +32,7 @@ package httpserver
 //	C11.tc.noop-apply-lifecycle/<Kind>  applying an identical spec returned another entity or ran Init/Inherit/Close/reload
 //	C11.tc.op-result                    a controller call failed / succeeded against the reference state
 //	C11.tc.update-never-applied         HTTPServer update not processed by its runtime
+//	C11.tc.kind-change-broken-pipeline  503 for an existing pipeline after an update that kept the name of its filter "m" and changed its kind (Mock / ResponseAdaptor / RateLimiter by version)
 //
 // Leniency: "applied" for the gate = the runtime's fsm has stored the new mux
 // instance (polled by the updater); creating an existing pipeline through
@@ -204,12 +205,36 @@ func c11GateText(name string, port, v int) string {
 	return string(b)
 }
 
+// c11TCFutKind: the filter named "m" keeps its name over all versions of a
+// pipeline, its kind depends on the version.
+func c11TCFutKind(v int) string {
+	switch v % 4 {
+	case 2:
+		return "ResponseAdaptor"
+	case 3:
+		return "RateLimiter"
+	}
+	return "Mock"
+}
+
 func c11TCPipeText(name string, v int) string {
+	mark := fmt.Sprintf("%s-v%d", name, v)
+	node := c11M{"filter": "m", "jumpIf": c11M{"mocked": "post"}}
+	fut := c11M{"name": "m", "kind": "Mock", "rules": []c11M{{"match": c11M{"pathPrefix": "/"}, "code": 200, "body": mark}}}
+	switch c11TCFutKind(v) {
+	case "ResponseAdaptor":
+		node = c11M{"filter": "m"}
+		fut = c11M{"name": "m", "kind": "ResponseAdaptor", "header": c11M{"set": c11M{"X-M": mark}}}
+	case "RateLimiter":
+		node = c11M{"filter": "m", "jumpIf": c11M{"rateLimited": "post"}}
+		fut = c11M{"name": "m", "kind": "RateLimiter", "defaultPolicyRef": "p", "urls": []c11M{{"url": c11M{"prefix": "/"}, "policyRef": "p"}},
+			"policies": []c11M{{"name": "p", "limitForPeriod": 1000000, "limitRefreshPeriod": "10ms", "timeoutDuration": "100ms"}}}
+	}
 	m := c11M{"name": name, "kind": "Pipeline",
-		"flow": []c11M{{"filter": "pre"}, {"filter": "m", "jumpIf": c11M{"mocked": "post"}}, {"filter": "post"}},
+		"flow": []c11M{{"filter": "pre"}, node, {"filter": "post"}},
 		"filters": []c11M{
 			{"name": "pre", "kind": "C11Park", "gen": v, "role": "pre", "tag": name},
-			{"name": "m", "kind": "Mock", "rules": []c11M{{"match": c11M{"pathPrefix": "/"}, "code": 200, "body": fmt.Sprintf("%s-v%d", name, v)}}},
+			fut,
 			{"name": "post", "kind": "C11Park", "gen": v, "role": "post", "tag": name},
 		}}
 	b, _ := json.Marshal(m)
@@ -538,6 +563,8 @@ func c11ExecTC(r *sim.Run, sc *c11TCSc) {
 	var sig strings.Builder
 	interesting := 0
 	opsDone := 0
+	kindChanged := map[string]string{} // pipeline -> description of an update that kept the filter name "m" and changed its kind
+	changed0 := func(a, b c11RefState) bool { return a.exists != b.exists || a.v != b.v }
 
 	for u := range sc.Updaters {
 		u := u
@@ -603,6 +630,10 @@ func c11ExecTC(r *sim.Run, sc *c11TCSc) {
 					} else {
 						wantErr = true
 					}
+				}
+				if !isGate && cur.exists && next.exists && changed0(cur, next) && c11TCFutKind(cur.v) != c11TCFutKind(next.v) {
+					kindChanged[op.Name] = fmt.Sprintf("%s(v%d)->%s(v%d)", c11TCFutKind(cur.v), cur.v, c11TCFutKind(next.v), next.v)
+					r.Probe("c11.tc.update_changes_kind_of_named_filter/" + c11TCFutKind(cur.v) + "->" + c11TCFutKind(next.v))
 				}
 				lifeBefore := lifeOf(op.Name)
 				var instBefore *muxInstance
@@ -826,6 +857,9 @@ func c11ExecTC(r *sim.Run, sc *c11TCSc) {
 					}
 				}
 				switch {
+				case is503 && allExist && kindChanged[name] != "":
+					class, why = "C11.tc.kind-change-broken-pipeline", fmt.Sprintf("pipeline %s exists in every state possible during the request, but after an update that keeps the name of its filter \"m\" and changes its kind (%s) requests are answered 503: "+
+						"pipeline.go reload() looks the previous filter up by name only and calls Inherit(prev) of the new kind, which type-asserts and panics; ObjectEntity.InheritWithRecovery swallows the panic and UpdatePipeline/ApplyPipeline store the half-built pipeline (empty flow, no response)", name, kindChanged[name])
 				case is503 && allExist && len(pvis) == 1:
 					class, why = "C11.tc.untouched-object-unavailable", fmt.Sprintf("pipeline %s existed during the whole request and no call on it overlapped, but the request was answered as if it did not exist", name)
 				case is503 && allExist:
